@@ -244,8 +244,11 @@ class Ctx:
         cov["undecided"] = self.undecided
         ev = dict(property_id=self.id, tier=self.tier, seed=self.seed, level=self.level, coverage=cov,
                   assumptions=self.assumptions, wall_s=round(wall, 1), violations=len(self.violations))
-        os.makedirs(EVIDENCE, exist_ok=True)
-        with open(os.path.join(EVIDENCE, self.id + ".json"), "w") as fh:
+        evdir = EVIDENCE
+        if os.environ.get("VERIF_REPO", "/repo") != "/repo":
+            evdir = os.path.join(tempfile.gettempdir(), "verif-evidence-mut")   # never overwrite real evidence
+        os.makedirs(evdir, exist_ok=True)
+        with open(os.path.join(evdir, self.id + ".json"), "w") as fh:
             json.dump(ev, fh, indent=1)
         print("property=%s tier=%s seed=%d states=%d transitions=%d traces=%d evaluations=%s violations=%d wall=%.0fs" % (
             self.id, self.tier, self.seed, cov["states"], cov["transitions"], cov["traces_validated_against_impl"],
